@@ -459,6 +459,11 @@ write_code(ostream &out_code,ostream * out_include, InterrogateModuleDef *def) {
   std::vector<FunctionRemap *>::iterator ri;
   for (ri = remaps.begin(); ri != remaps.end(); ++ri) {
     FunctionRemap *remap = (*ri);
+    if (remap->_wrapper_index == 0) {
+      // This remap was never assigned a wrapper (e.g. it could not be
+      // wrapped by this back-end).
+      continue;
+    }
     wrappers_by_index[remap->_wrapper_index] = remap;
     num_wrappers++;
   }
@@ -495,6 +500,9 @@ write_code(ostream &out_code,ostream * out_include, InterrogateModuleDef *def) {
         << num_wrappers << "] = {\n";
     for (ri = remaps.begin(); ri != remaps.end(); ++ri) {
       FunctionRemap *remap = (*ri);
+      if (remap->_wrapper_index == 0) {
+        continue;
+      }
       out_code << "  { \""
           << remap->_unique_name << "\", "
           << remap->_wrapper_index - 1 << " },\n";
